@@ -6,9 +6,10 @@
 (* cases are a deterministic pseudo-random sample: case n is a pure function of            *)
 (* (VERIF_SEED, n) through a Lehmer generator written in TLA+ (no reliance on TLC's own     *)
 (* randomisation, so that the same seed gives the same vectors at any worker count).        *)
-(* For every case the specification (module Clpz) computes the solution set, its           *)
-(* lexicographic enumeration, per-variable projections and the value of an objective       *)
-(* expression; the driver replays the case against library(clpz).                          *)
+(* For every case the specification (module Clpz) computes the solutions in lexicographic   *)
+(* order, for every constraint its truth value (and whether its Boolean positions hold 0/1) *)
+(* on every assignment of the domains, per-variable projections of the solutions and the    *)
+(* value of an objective expression; the driver replays the case against library(clpz).    *)
 EXTENDS Clpz, Json, IOUtils, TLC
 
 CONSTANTS NCases,   \* number of cases
@@ -161,6 +162,8 @@ Emit ==
           sys |-> c.sys,
           sols |-> ls,                          \* solutions in lexicographic order
           masks |-> ms,                         \* per constraint: 0/1 over the lexicographic assignments
+          bmasks |-> [j \in 1..Len(c.sys) |->   \* per constraint: are all Boolean positions 0/1 under the assignment
+                       [i \in 1..Len(as) |-> IF BoolOK(c.sys[j], as[i]) THEN 1 ELSE 0]],
           nassign |-> Len(as),
           proj |-> [i \in 1..c.nv |-> Sorted({ls[j][i] : j \in 1..Len(ls)})],
           partial |-> \E i \in 1..Len(as) : \E j \in 1..Len(c.sys) : ~AllDefined(c.sys[j], as[i]),
